@@ -14,9 +14,9 @@ CHECKS = {
    technique="bounded-exhaustive input enumeration (class-alphabet strings, structures x layouts, edit neighbourhoods) with a parse/format/reparse oracle on the real code",
    text="Every input of three finite spaces (all strings <=5/6 symbols over the 25-class alphabet; small structures in all layouts incl. extended ones; all single (thorough: double) edits of canonical renderings and of the repository's spokfiles) that parses is formatted and re-parsed; variables and tasks must be unchanged.",
    note=LANG_NOTE),
- "C08": dict(engine="langmc", cat="model_checking", ref="§2.3, §3 C08",
+ "C08": dict(engine="langmc", cat="model_checking", ref="§2.3, §3 C08, §9",
    technique="bounded-exhaustive input enumeration in crash-isolated workers (termination, crash, determinism, located-error oracle); schedule part via controlled scheduler",
-   text="Every input of the three finite spaces (incl. invalid UTF-8 and all truncations) is parsed twice in a worker process whose death or lack of progress is itself an observed outcome; errors must cite an in-range line and quote it.",
+   text="Every input of the finite spaces (alphabet strings incl. invalid UTF-8, structures x layouts, all truncations and edits, every byte value at every position of a few programs, short strings next to 70000-byte lines) is parsed twice in a worker process whose death or lack of progress is itself an observed outcome; errors must cite an in-range line and quote it. Schedule part: every interleaving of lexer goroutine and parser (controlled scheduler over the rewritten lexer) for all strings of <=3 (4) symbols.",
    note=LANG_NOTE + " Hang detection: in-worker progress watchdog (25 s without completing a case that normally takes microseconds), confirmed twice on the single input."),
  "C11": dict(engine="langmc", cat="model_checking", ref="§2.3, §3 C11",
    technique="bounded-exhaustive input enumeration with format(format(x)) == format(x) oracle on the real formatter",
@@ -54,7 +54,7 @@ HIST_NOTE = ("Trusted base: Go toolchain; the reference model (last successful i
 CHECKS.update({
  "C01": dict(engine="histmc", cat="model_checking", ref="§2.1, §3 C01",
    technique="explicit-state BFS to closure over (disk, reference-model) states, each transition executed by the real code, branching over every topological-sort iteration order; skip-soundness invariant on every run transition",
-   text="For each program of the catalogue (thorough: every <=2-task program over the dependency alphabet plus the 3-task shapes) the full state graph under the op alphabet {edit/create/revert/delete files, run any request list with/without force with any failing set, remove cache} is explored to closure, i.e. all finite histories; every reported skip must match the model's last success.",
+   text="For each of 16 programs (literal/glob/task dependencies, shared files, file-less tasks, a file listed twice, a deletable dependency, task commands that rewrite or generate other tasks' inputs; thorough: plus every 1-task program and every 2-task program over {a.txt, *.src, sub/*.src}) the full state graph under the op alphabet {edit/create/revert/delete files, run any request list with/without force with any failing set, run with an unwritable cache file, remove cache} is explored to closure, i.e. all finite histories; every run op is also replayed through the built binary. Every reported skip must match the model's last success.",
    note=HIST_NOTE),
  "C02": dict(engine="histmc", cat="model_checking", ref="§2.1, §3 C02",
    technique="same explicit-state closure as C01 with the converse oracle (unchanged since last success => skipped, file-less tasks always run)",
@@ -161,7 +161,7 @@ def main():
         ],
         "checks": checks,
         "not_applicable": na,
-        "notes": "See DESIGN.md. Every check enumerates a stated finite space exhaustively on code built from /repo's working tree; evidence files report the bound completed.",
+        "notes": "See DESIGN.md (sections 9-11 describe what was built, the defects found and repaired in /repo, the false alarms corrected, and which seeded changes each check catches). Every check enumerates a stated finite space exhaustively on code built from /repo's working tree; evidence files report the bound completed. C04/C18 additionally carry a supplementary free-running race-detector pass that can only add alarms backed by a race report. known_findings.jsonl holds only 'fixed' entries.",
     }
     with open(os.path.join(here, "MANIFEST.json"), "w") as f:
         json.dump(m, f, indent=1)
